@@ -84,8 +84,8 @@ Qed.
 Lemma module_fault_equiv g m m' : Forall2 app_equiv m m' -> module_fault g m = module_fault g m'.
 Proof.
   unfold module_fault. intros H. f_equal. eapply map_Forall2_eq; [|exact H]. intros ap ap' Hap.
-  destruct Hap as (_ & _ & _ & _ & _ & _ & (Hne & He) & _). unfold app_fault.
-  rewrite (sorted_by_perm_eq e_name _ _ Hne He). reflexivity.
+  destruct Hap as (_ & _ & _ & _ & _ & _ & (Hne & He) & _ & (Hnv & Hv)). unfold app_fault.
+  rewrite (sorted_by_perm_eq e_name _ _ Hne He), (sorted_by_perm_eq v_name _ _ Hnv Hv). reflexivity.
 Qed.
 
 Theorem normalize_order_independent cm am g m m' :
